@@ -43,6 +43,11 @@ fn remove_invalid_compumethod_refs(module: &mut Module) {
         }
     }
     for typedef_characteristic in &mut module.typedef_characteristic {
+        for axis_descr in &mut typedef_characteristic.axis_descr {
+            if !module.compu_method.contains_key(&axis_descr.conversion) {
+                axis_descr.conversion = "NO_COMPU_METHOD".to_string();
+            }
+        }
         if !module
             .compu_method
             .contains_key(&typedef_characteristic.conversion)
@@ -78,6 +83,9 @@ fn remove_unused_compumethods(module: &mut Module) {
         used_compumethods.insert(typedef_axis.conversion.clone());
     }
     for typedef_characteristic in &mut module.typedef_characteristic {
+        for axis_descr in &typedef_characteristic.axis_descr {
+            used_compumethods.insert(axis_descr.conversion.clone());
+        }
         used_compumethods.insert(typedef_characteristic.conversion.clone());
     }
     for typedef_measurement in &mut module.typedef_measurement {
